@@ -75,7 +75,7 @@ def run(pid, tier, seed):
         "states": stats["distinct"], "transitions": stats["generated"],
         "traces_validated_against_impl": cnt.get("rows", 0) + validated,
         "exhaustive": True,
-        "rule": f"every line of <= {cfg['maxlex']} lexemes over the 36-lexeme alphabet of MC_Lex.tla (distinct byte strings) plus 2904 DATA statements by grammar (two items of 11 kinds x 3 separators x 4 tails); "
+        "rule": f"every line of <= {cfg['maxlex']} lexemes over the 36-lexeme alphabet of MC_Lex.tla (distinct byte strings) plus 4056 DATA statements by grammar (two items of 13 kinds x 3 separators x 4 tails); "
                 "non-trivial = the line yields at least one token",
         "evaluations": cnt.get("rows", 0) + cnt.get("perturbations", 0) + cnt.get("list_roundtrips", 0) + validated,
         "distinct_nontrivial": cnt.get("rows_nontrivial", 0),
